@@ -57,6 +57,27 @@ func (x *Exec) elemAt(heapName string, heap string, s string, idx string, elemSo
 	return app(f, heap, s, idx)
 }
 
+// inSlice is the specification-level membership test contains(s, v) of a slice in a given version of its element
+// heap: an uninterpreted predicate tied to the element access by two axioms (every element is contained; whatever
+// is contained sits at the witness index). Keyed by the value, so chains of membership facts close under congruence.
+func (x *Exec) inSlice(heapName string, heap string, s string, v string, elemSort string, axioms bool) string {
+	f := "uf_in_" + mangle(elemSort)
+	w := "uf_inwit_" + mangle(elemSort)
+	hs := x.varSort(heapName)
+	x.vc.declFun(f, []string{hs, SSlice, elemSort}, SBool)
+	if axioms {
+		x.vc.declFun(w, []string{hs, SSlice, elemSort}, SInt)
+		at := x.elemAt(heapName, "h", "s", "i", elemSort)
+		// introduction only for membership questions that are already being asked (multi-pattern): stating it for every
+		// element access would create a fresh question per access and, with the witness below, a matching loop
+		x.vc.axiom(fmt.Sprintf("(forall ((h %s) (s Slice) (i Int) (v %s)) (! (=> (and (<= 0 i) (< i (s.len s)) (= %s v)) (%s h s v)) :pattern (%s (%s h s v))))", hs, elemSort, at, f, at, f))
+		wit := app(w, "h", "s", "v")
+		x.vc.axiom(fmt.Sprintf("(forall ((h %s) (s Slice) (v %s)) (! (=> (%s h s v) (and (<= 0 %s) (< %s (s.len s)) (= %s v))) :pattern ((%s h s v))))",
+			hs, elemSort, f, wit, wit, x.elemAt(heapName, "h", "s", wit, elemSort), f))
+	}
+	return app(f, heap, s, v)
+}
+
 func (e *Env) withBound(name string, t Term) *Env {
 	n := *e
 	n.bound = map[string]Term{}
@@ -891,6 +912,21 @@ func (x *Exec) trCall(e *Expr, env *Env) (Term, error) {
 				return tBool(app("select", args[0].S, args[1].S)), nil
 			}
 			return Term{S: app("store", args[0].S, args[1].S, "true"), Sort: args[0].Sort}, nil
+		case "contains":
+			// contains(s, v): v is an element of the slice s (in the current state, or the old one inside old(...))
+			args, err := trArgs()
+			if err != nil {
+				return Term{}, err
+			}
+			if len(args) != 2 || args[0].Sort != SSlice || args[0].T == nil {
+				return Term{}, fmt.Errorf("contains(s, v) needs a slice and a value")
+			}
+			sl, ok := types.Unalias(args[0].T).Underlying().(*types.Slice)
+			if !ok || x.ss.sortOf(sl.Elem()) != args[1].Sort {
+				return Term{}, fmt.Errorf("contains(s, v): v must have the element type of s")
+			}
+			h := x.heapElem(sl.Elem())
+			return tBool(x.inSlice(h, x.get(env.state(), h).S, args[0].S, args[1].S, args[1].Sort, true)), nil
 		case "modifiesOnly", "modifiesNone":
 			// modifiesOnly(s, t, ...): in the element heap of these slices, every array other than theirs is as in the old state
 			args, err := trArgs()
